@@ -174,9 +174,12 @@ public:
       // There is an alternative definition in Section 4 for
       // "accumulating" analyzers which is not the case of Crab.
       if (other.m_product.second() <= m_product.second()) {
-        // end of phase: second stabilizes so it is promoted to first
-        Dom first = other.m_product.second();
-        Dom second = other.m_product.second();
+        // end of phase: second stabilizes so it is promoted to
+        // first. The join with our first component has no effect if
+        // other is above *this (the usual case), otherwise it keeps
+        // the result above both arguments.
+        Dom first = m_product.first() | other.m_product.second();
+        Dom second = first;
         product_domain_t product(std::move(first), std::move(second));
         return this_type(std::move(product));
       } else {
@@ -196,9 +199,12 @@ public:
       return *this;
     } else {
       if (other.m_product.second() <= m_product.second()) {
-        // end of phase: second stabilizes so it is promoted to first
-        Dom first = other.m_product.second();
-        Dom second = other.m_product.second();
+        // end of phase: second stabilizes so it is promoted to
+        // first. The join with our first component has no effect if
+        // other is above *this (the usual case), otherwise it keeps
+        // the result above both arguments.
+        Dom first = m_product.first() | other.m_product.second();
+        Dom second = first;
         product_domain_t product(std::move(first), std::move(second));
         return this_type(std::move(product));
       } else {
